@@ -155,6 +155,10 @@ class ExtentAttribute:
 
       s = extent.split(" ")
 
+      if len(s) != 2:
+        LOGGER.error("tts:extent on <tt> must have two components")
+        return None
+
       (w, w_units) = utils.parse_length(s[0])
 
       (h, h_units) = utils.parse_length(s[1])
@@ -241,7 +245,7 @@ class TickRateAttribute:
 
       m = TickRateAttribute._TICK_RATE_RE.match(tr)
 
-      if m is not None:
+      if m is not None and int(m.group(1)) > 0:
 
         return int(m.group(1))
 
@@ -347,7 +351,7 @@ class FrameRateAttribute:
 
       m = FrameRateAttribute._FRAME_RATE_RE.match(fr_raw)
 
-      if m is not None:
+      if m is not None and int(m.group(1)) > 0:
 
         fr = Fraction(m.group(1))
 
@@ -365,7 +369,7 @@ class FrameRateAttribute:
 
       m = FrameRateAttribute._FRAME_RATE_MULT_RE.match(frm_raw)
 
-      if m is not None:
+      if m is not None and int(m.group(1)) > 0 and int(m.group(2)) > 0:
 
         frm = Fraction(int(m.group(1)), int(m.group(2)))
 
